@@ -30,7 +30,8 @@ RULE = ('one case = one seeded history of 5-60 store / bulk store / load / load 
         'inside a mutating call; non-trivial = the history overwrote or removed a present address and later read it '
         '(or a colliding one) back; distinct = distinct (backend, operation list, fault) hash; about one case in 200 instead '
         'runs a three-phase history in three separately started interpreters (different hash seeds) on a real directory, and '
-        'about one in eight is a concurrent-writers case (2-3 processes or threads, disjoint colliding addresses, file/compact backends)')
+        'about one in eight is a concurrent-writers case (2-3 processes or threads, disjoint colliding addresses, file/compact backends); '
+        'bulk stores may name one address twice; about 4 % of the compact histories run on tmpfs with every bundle extended sparsely beyond 4 GiB')
 COMPONENTS = {
     'real': ['mapproxy.cache.file.FileCache + cache/path.py (all layouts, symlink/hardlink, dimensions)',
              'mapproxy.cache.compact.CompactCacheV1/V2', 'mapproxy.cache.mbtiles.MBTilesCache/MBTilesLevelCache',
